@@ -114,6 +114,7 @@ KNOWN_CASES = [
     ('applesoft', 2049, "10 " + ':'.join(['A=1'] * 70) + "\n20 END\n"),
     ('applesoft', 2049, ''.join(f"{i + 1} A=1\n" for i in range(5200))),
     ('integer', 0, "10 IF Y THEN REM X \n"),
+    ('integer', 0, "10 IF 02 THEN 10\n"),
 ]
 
 
